@@ -23,7 +23,7 @@ def parse(filename):
 def patch(nodes, patch_dict):
     for idx, node in enumerate(nodes):
         patches = patch_dict.get(node.name)
-        if patches:
+        if patches and not isinstance(node, model.Include):
             nodes[idx] = _apply(node, patches)
 
 
